@@ -312,6 +312,14 @@ func checkC12(c *Ctx) {
 	r.Floor("C12/RACE/entries-persist", "borrowed obligations", nB, 1)
 	// the scan's removal must not write back an index it loaded before a concurrent delivery
 	// committed (decided by C09's bucket-lock rule): the fresh message would vanish with it
+	// the scan removes by id what it tested as a snapshot: an id must never come to name another
+	// message (decided by C07: the memory store's id counter only ever increments)
+	nI := c.borrow(func(c2 *Ctx) {
+		if sm2 := c2.stores(); sm2.ok {
+			c2.c07Mem(sm2)
+		}
+	}, "C07/ID/monotone/", "C12/RACE/ids-never-reused", "memory store: message ids are never issued twice, so RemoveMessage(mailbox, id) of an expired message cannot hit mail delivered after the snapshot")
+	r.Floor("C12/RACE/ids-never-reused", "borrowed obligations", nI, 1)
 	nF := c.borrow(func(c2 *Ctx) {
 		if pm2 := c2.pairing(); pm2.ok {
 			c2.c09File(pm2)
